@@ -168,7 +168,12 @@ func cmdCheck(args []string) {
 			defer func() { <-sem }()
 			sb, _ := json.Marshal(j.spec)
 			out := filepath.Join(tmp, fmt.Sprintf("run%d.json", i))
-			cmd := exec.Command(self, "one", "--spec", string(sb), "--out", out)
+			// wall-clock budget per run: a run that does not finish is a machinery fault, never a pass
+			budget := "1200"
+			if *tier == "thorough" {
+				budget = "7200"
+			}
+			cmd := exec.Command("timeout", "-k", "10", budget, self, "one", "--spec", string(sb), "--out", out)
 			cmd.Env = append(os.Environ(), fmt.Sprintf("SYMGO_WORKERS=%d", workers))
 			o, err := cmd.CombinedOutput()
 			rb, rerr := os.ReadFile(out)
